@@ -4,16 +4,18 @@ number-density-weighted sums (Macros).
 spec -> code
   * LibraryMerge: TLC explores every merge order (refusals included) of every multiset of generated source libraries;
     every edge (s, merge(t,o), s') is executed as path(s);merge on libraries written and re-read by armi's own
-    ISOTXS/GAMISO/PMATRX writers/readers; after the call ALL libraries are projected (whose data every nuclide holds,
+    ISOTXS/GAMISO/PMATRX writers/readers; after the call the libraries are projected (whose data every nuclide holds,
     group structures, dose factors, velocity, file metadata, chi flags) and compared with the state TLC printed.
-  * Macros: TLC enumerates micro tables x compositions, checks linearity / additivity / zero / defining sums in the
-    specification over exact rationals and prints every case with the expected arrays; the real functions are called
-    once per case.
+  * Macros: TLC enumerates micro tables x suffixes x compositions, checks linearity / additivity / zero / defining sums
+    in the specification over exact rationals and prints every case with the expected arrays; the real functions are
+    called once per case.
 code -> spec
-  * seeded random scenarios (more and larger libraries, random merge orders) run on the real code; TLC validates every
-    recorded history against LibraryMerge_trace.
+  * seeded random scenarios (five generated libraries over five labels, random merge attempts) run on the real code; TLC
+    validates every recorded history against LibraryMerge_trace.
 """
+import concurrent.futures
 import json
+import multiprocessing
 import os
 import random
 import re
@@ -24,11 +26,12 @@ from harness import gen_xslib as G
 from harness.armi_env import armi_ready
 
 MODDIR = os.path.join(common.SPEC, "xs")
-MERGE_INVS = ("MergedIsUnion", "LabelsAreUnion", "VelocityKept", "NoSilentCombine", "SourcesPartitioned")
+MERGE_ACTIONS = ("Merge", "MergeRefused")
 # the exception classes of the three refusals.  ValueError: comparing the per-nuclide PMATRX metadata of two entries of one
 # label that both carry activation cross sections (lists of arrays) trips numpy's "truth value is ambiguous" inside
 # properties.numpyHackForEqual -- an accidental exception class, but the overlap IS rejected, which is all the statement asks
 ERRKIND = {"ImmutablePropertyError": "Property", "OSError": "Metadata", "AttributeError": "Overlap", "ValueError": "Overlap"}
+NPROC = 4            # processes replaying merge edges
 _SELFTEST = False
 _CACHE = {}
 
@@ -40,11 +43,33 @@ def _tlc_verdict(rep, label, res):
                       {"direction": "tlc", "trace": res.violation["trace"][:20000]})
 
 
-def _cached(module, cfg, **kw):
-    k = (module, cfg)
-    if k not in _CACHE:
-        _CACHE[k] = tlc.run(module, cfg, MODDIR, timeout=3000, **kw)
-    return _CACHE[k]
+def launch(thorough):
+    """Every TLC run of the tier that reads no trace, a few at a time.  Emission runs are cached (the self-test re-uses them)."""
+    t = "_thorough" if thorough else ""
+    jobs = {
+        "merge_emit": ("LibraryMerge_mc", "LibraryMerge_emit%s.cfg" % t, dict(workers=1, coverage=False)),
+        "macro_emit": ("Macros_mc", "Macros_emit%s.cfg" % t, dict(workers=1, coverage=False)),
+    }
+    if not _SELFTEST:
+        jobs["merge_mc"] = ("LibraryMerge_mc", "LibraryMerge_mc%s.cfg" % t, dict(workers=4, want_prints=False))
+        jobs["macro_mc"] = ("Macros_mc", "Macros_mc%s.cfg" % t, dict(workers=8, want_prints=False))
+        if thorough:
+            jobs["merge_four"] = ("LibraryMerge_mc", "LibraryMerge_four_thorough.cfg", dict(workers=4, want_prints=False))
+            jobs["merge_all"] = ("LibraryMerge_mc", "LibraryMerge_all.cfg", dict(workers=6, want_prints=False))
+    out = {}
+    todo = {k: v for k, v in jobs.items() if (v[0], v[1]) not in _CACHE}
+    with concurrent.futures.ThreadPoolExecutor(max_workers=6) as ex:
+        futs = {k: ex.submit(tlc.run, mod, cfg, MODDIR, timeout=3000, **kw) for k, (mod, cfg, kw) in todo.items()}
+        for k, f in futs.items():
+            res = f.result()
+            if k.endswith("_emit"):
+                _CACHE[(jobs[k][0], jobs[k][1])] = res
+            out[k] = res
+    for k, (mod, cfg, _) in jobs.items():
+        if k not in out:
+            out[k] = _CACHE[(mod, cfg)]
+        out[k].cfgname = cfg
+    return out
 
 
 # ------------------------------------------------------------------------------------------------------------
@@ -79,23 +104,29 @@ class MergeAdapter:
             libs.append(S.load(d, sid))
         return {"libs": libs, "nsrc": len(root["src"]), "err": "", "last": None}
 
+    def merge(self, w, t, o):
+        """target.merge(other); the refusals the specification models are returned as their kind, anything else
+        (TypeError, KeyError, ...) escapes: an exception out of a legal call is a verdict."""
+        try:
+            w["libs"][t].merge(w["libs"][o])
+        except self.refusals as ex:
+            return ERRKIND[type(ex).__name__] if type(ex).__name__ in ERRKIND else "Metadata" if isinstance(ex, OSError) else type(ex).__name__
+        return ""
+
     def apply(self, w, a):
         w["err"] = ""
         w["last"] = a
-        if a["n"] not in ("Merge", "MergeRefused"):
+        if a["n"] not in MERGE_ACTIONS:
             raise AssertionError("unknown action %r" % a)
-        t, o = w["libs"][a["t"]], w["libs"][a["o"]]
-        try:
-            t.merge(o)
-        except self.refusals as ex:
-            # the three refusals the specification models; anything else (TypeError, KeyError, ...) escapes = a verdict
-            w["err"] = ERRKIND.get(type(ex).__name__, type(ex).__name__)
+        w["err"] = self.merge(w, a["t"], a["o"])
         return w["err"]
 
-    def project(self, w):
+    def project_libs(self, w):
         S = sources()
-        libs = [G.project_library(x, S, w["nsrc"], self.labels) for x in w["libs"]]
-        return shape_obs(libs, w["err"], w["last"])
+        return [G.project_library(x, S, w["nsrc"], self.labels) for x in w["libs"]]
+
+    def project(self, w):
+        return shape_obs(self.project_libs(w), w["err"], w["last"])
 
 
 def shape_obs(libs, err, act, expected=False):
@@ -112,8 +143,14 @@ def shape_obs(libs, err, act, expected=False):
     return out
 
 
+FIELD_GROUP = {"ngs": "properties", "ggs": "properties", "nd": "properties", "gd": "properties", "vel": "velocity",
+               "meta": "file-metadata", "pdose": "file-metadata", "files": "file-metadata", "fw": "chi", "labels": "labels",
+               "nucs": "nuclides", "alive": "consumed"}
+
+
 def merge_key(div):
-    """Stable identifier of a merge divergence: outcome class, which library, which group of fields."""
+    """Stable identifier of a merge divergence: outcome class (and the refusal the specification expects), which library,
+    which group of fields."""
     a = div["action"]
     d = div["first_difference"]
     path = d.split(":")[0]
@@ -125,9 +162,7 @@ def merge_key(div):
     parts = [p for p in re.sub(r"\[\d+\]", "", path).split(".") if p]
     who = parts[0] if parts else "?"
     field = parts[1] if len(parts) > 1 else "?"
-    group = {"ngs": "properties", "ggs": "properties", "nd": "properties", "gd": "properties", "vel": "velocity",
-             "meta": "file-metadata", "pdose": "file-metadata", "files": "file-metadata", "fw": "chi", "labels": "labels", "nucs": "nuclides",
-             "alive": "consumed"}.get(field, field)
+    group = FIELD_GROUP.get(field, field)
     if group == "nuclides" and len(parts) > 2:
         group = {"cf": "chi", "owner": "container"}.get(parts[2], "nuclide-data")
     exp_err = div.get("expected", {}).get("err", "")
@@ -144,79 +179,114 @@ def edges_of(res):
     return edges
 
 
-def run_merge(rep, thorough, seed):
-    t = "_thorough" if thorough else ""
+_RCTX = None
+
+
+def _replay_chunk(idxs):
+    g, ad = _RCTX
+    out = []
+    for i in idxs:
+        e = g.edges[i]
+        pre = g.path[e["_fk"]]
+        root = pre[0]["from"] if pre else e["from"]
+        out.append((i, rp.run_behaviour(ad, root, pre + [e], check_from=len(pre))))
+    return out
+
+
+def replay_all(g, ad, nproc=NPROC):
+    """Like rp.replay_graph, but keeps going after divergences, keeps ONE divergence per key (the shortest behaviour) and
+    attributes a divergence to the first edge that shows it: edges are taken level by level (BFS depth of their source
+    state) and an edge whose BFS-tree prefix already diverged is not replayed (its prefix is reported instead).
+    The edges of one level are shared among `nproc` forked processes.  Returns (n, nontrivial, divs, masked)."""
+    global _RCTX
+    S = sources()
+    for e in g.edges:                      # materialise every source file before forking
+        if e.get("lvl") == 1:
+            for sid, d in enumerate(e["from"]["src"], start=1):
+                S.path(d, sid)
+    levels = {}
+    for i, e in enumerate(g.edges):
+        pre = g.path.get(e["_fk"])
+        if pre is not None:
+            levels.setdefault(len(pre), []).append(i)
+    divs = {}
+    n = nt = masked = 0
+    bad_states = set()
+    _RCTX = (g, ad)
+    ctx = multiprocessing.get_context("fork")
+    try:
+        for lvl in sorted(levels):
+            todo = []
+            for i in levels[lvl]:
+                e = g.edges[i]
+                if e["_fk"] in bad_states:
+                    masked += 1
+                    tree = g.path.get(e["_tk"])
+                    if tree and tree[-1] is e:
+                        bad_states.add(e["_tk"])
+                else:
+                    todo.append(i)
+            if not todo:
+                continue
+            if nproc > 1 and len(todo) > 200:
+                size = max(50, len(todo) // (nproc * 4))
+                chunks = [todo[k:k + size] for k in range(0, len(todo), size)]
+                with ctx.Pool(nproc) as pool:
+                    results = [r for part in pool.map(_replay_chunk, chunks) for r in part]
+            else:
+                results = _replay_chunk(todo)
+            for i, d in results:
+                e = g.edges[i]
+                n += 1
+                nt += 1 if e["_fk"] != e["_tk"] else 0
+                if d:
+                    tree = g.path.get(e["_tk"])
+                    if tree and tree[-1] is e:
+                        bad_states.add(e["_tk"])
+                    k = merge_key(d)
+                    cnt = divs.get(k, {}).get("count", 0) + 1
+                    if k not in divs or len(d["behaviour"]) < len(divs[k]["behaviour"]):
+                        divs[k] = d
+                    divs[k]["count"] = cnt
+    finally:
+        _RCTX = None
+    return n, nt, divs, masked
+
+
+def run_merge(rep, thorough, seed, results):
     # 1. the design itself: invariants over every merge order of every scenario
-    cfgs = ["LibraryMerge_mc%s.cfg" % t]
-    if thorough:
-        cfgs += ["LibraryMerge_four_thorough.cfg", "LibraryMerge_all.cfg"]
-    if not _SELFTEST:
-        for cfg in cfgs:
-            res = tlc.run("LibraryMerge_mc", cfg, MODDIR, want_prints=False, timeout=3000)
-            _tlc_verdict(rep, "exhaustive:" + cfg, res)
-            never = [a for a in ("Merge", "MergeRefused") if res.coverage.get(a, (0, 0))[1] == 0]
+    for k in ("merge_mc", "merge_four", "merge_all"):
+        if k in results and not _SELFTEST:
+            res = results[k]
+            _tlc_verdict(rep, "exhaustive:" + res.cfgname, res)
+            never = [a for a in MERGE_ACTIONS if res.coverage.get(a, (0, 0))[1] == 0]
             if never:
-                raise tlc.MachineryError("vacuous: actions never taken in %s: %s" % (cfg, never))
+                raise tlc.MachineryError("vacuous: actions never taken in %s: %s" % (res.cfgname, never))
     # 2. spec -> code: every edge on real libraries
-    ecfg = "LibraryMerge_emit%s.cfg" % t
-    eres = _cached("LibraryMerge_mc", ecfg, workers=1, coverage=False)
-    _tlc_verdict(rep, "edges:" + ecfg, eres)
-    edges = edges_of(eres)
-    g = rp.Graph(edges)
+    eres = results["merge_emit"]
+    _tlc_verdict(rep, "edges:" + eres.cfgname, eres)
+    g = rp.Graph(edges_of(eres))
     ad = MergeAdapter(nlab=3)
     n, nt, divs, masked = replay_all(g, ad)
     if n == 0:
         raise tlc.MachineryError("no merge edges replayed")
     rep.add_replay("merge-edges", n, nt,
                    "every edge (s, target.merge(other), s') of TLC's state graph is executed as path(s);merge on libraries "
-                   "written and re-read by armi's ISOTXS/GAMISO/PMATRX code; all libraries are projected and compared; "
+                   "written and re-read by armi's ISOTXS/GAMISO/PMATRX code; the libraries are projected and compared; "
                    "non-trivial = the merge succeeds (the state changes)")
     if masked:
         rep.note("%d merge edges not replayed because the path leading to them already diverged (reported at its first edge)" % masked)
     for key, d in divs.items():
-        rep.violation(key, "real libraries diverge from LibraryMerge after %s (expected outcome %r): %s" % (
-            json.dumps(d["action"]), d["expected"].get("err", ""), d["first_difference"]),
+        rep.violation(key, "real libraries diverge from LibraryMerge after %s (expected outcome %r; %d edges): %s" % (
+            json.dumps(d["action"]), d["expected"].get("err", ""), d["count"], d["first_difference"]),
             dict(d, direction="replay", part="merge"))
-    if g.edges:
-        e = [x for x in g.edges if x["err"] == ""][len(g.edges) // 5]
-        rep.sample({"kind": "merge-edge", "sources": e["from"]["src"], "path": [s["act"] for s in g.path[e["_fk"]]], "act": e["act"],
-                    "expected_target": e["obs"].get("target")})
-        e = [x for x in g.edges if x["err"] != ""][len(g.edges) // 7]
-        rep.sample({"kind": "merge-refusal", "sources": e["from"]["src"], "path": [s["act"] for s in g.path[e["_fk"]]], "act": e["act"],
-                    "expected_err": e["err"]})
-
-
-def replay_all(g, ad):
-    """Like rp.replay_graph, but keeps going after divergences, keeps ONE divergence per key (the shortest behaviour) and
-    attributes a divergence to the first edge that shows it: edges are taken in BFS order and an edge whose BFS-tree
-    prefix already diverged is not replayed (its prefix is reported instead).  Returns (n, nontrivial, divs, masked)."""
-    divs = {}
-    n = nt = masked = 0
-    bad_states = set()
-    for e in sorted(g.edges, key=lambda x: len(g.path.get(x["_fk"], ()))):
-        pre = g.path.get(e["_fk"])
-        if pre is None:
-            continue
-        if e["_fk"] in bad_states:
-            masked += 1
-            tree = g.path.get(e["_tk"])
-            if tree and tree[-1] is e:
-                bad_states.add(e["_tk"])
-            continue
-        root = pre[0]["from"] if pre else e["from"]
-        d = rp.run_behaviour(ad, root, pre + [e], check_from=len(pre))
-        n += 1
-        nt += 1 if e["_fk"] != e["_tk"] else 0
-        if d:
-            tree = g.path.get(e["_tk"])
-            if tree and tree[-1] is e:
-                bad_states.add(e["_tk"])
-            k = merge_key(d)
-            cnt = divs.get(k, {}).get("count", 0) + 1
-            if k not in divs or len(d["behaviour"]) < len(divs[k]["behaviour"]):
-                divs[k] = d
-            divs[k]["count"] = cnt
-    return n, nt, divs, masked
+    ok = [x for x in g.edges if x["err"] == "" and len(g.path[x["_fk"]]) == 2]
+    no = [x for x in g.edges if x["err"] != "" and len(g.path[x["_fk"]]) == 1]
+    for kind, pool in (("merge-edge", ok), ("merge-refusal", no)):
+        if pool:
+            e = pool[len(pool) // 2]
+            rep.sample({"kind": kind, "sources": e["from"]["src"], "path": [s["act"] for s in g.path[e["_fk"]]], "act": e["act"],
+                        "expected_err": e["err"], "expected_target": e["obs"].get("target")})
 
 
 # ------------------------------------------------------------------------------------------------------------
@@ -244,47 +314,44 @@ def random_desc(rng):
 def merge_traces(ntraces, nev, seed):
     rng = random.Random(seed * 104729 + 10)
     ad = MergeAdapter(nlab=TRACE_NLAB)
-    S = sources()
     traces = []
     for t in range(ntraces):
         src = [random_desc(rng) for _ in range(TRACE_NSRC)]
-        w = ad.build({"src": src})
-        ev = []
-        for _ in range(nev):
-            alive = [i for i, x in enumerate(w["libs"]) if x.__dict__]
-            if len(alive) < 2:
-                break
-            ti, oi = rng.sample(alive, 2)
-            a = {"n": "merge", "t": ti, "o": oi}
-            pre_other = G.project_library(w["libs"][oi], S, TRACE_NSRC, ad.labels)
-            try:
-                w["err"] = ""
-                try:
-                    w["libs"][ti].merge(w["libs"][oi])
-                except ad.refusals as ex:
-                    w["err"] = ERRKIND.get(type(ex).__name__, type(ex).__name__)
-                libs = [G.project_library(x, S, TRACE_NSRC, ad.labels) for x in w["libs"]]
-                if w["err"]:
-                    libs[oi] = pre_other     # `other` is not observed at a refusal (see shape_obs)
-                ev.append({"a": a, "post": {"libs": libs, "err": w["err"]}})
-            except Exception as ex:  # noqa: BLE001  an escaping exception ends the history; TLC rejects the event
-                ev.append({"a": a, "post": {"libs": [], "err": "exception %s: %s" % (type(ex).__name__, str(ex)[:160])}})
-                break
-        traces.append({"id": "m%d" % t, "src": src, "ev": ev})
+        attempts = [(rng.random(), rng.random()) for _ in range(nev)]
+        traces.append(record_trace(ad, "m%d" % t, src, attempts))
     return traces
 
 
-def run_merge_traces(rep, thorough, seed):
-    traces = merge_traces(600 if thorough else 150, 9, seed)
-    bad, stats = tracecheck.validate("LibraryMerge_trace", "LibraryMerge_trace.cfg", MODDIR, traces, timeout=3000)
-    rep.add_tlc("trace-validation:merge", stats["tlc"])
-    nref = sum(1 for t in traces for e in t["ev"] if e["post"]["err"])
-    rep.add_traces("merge-histories", len(traces), sum(len(t["ev"]) for t in traces),
-                   "seeded random scenarios of %d generated source libraries over %d labels, <= 9 random merge attempts each, run on "
-                   "the real code; the projection of every library after every call must be a step of LibraryMerge "
-                   "(%d recorded refusals)" % (TRACE_NSRC, TRACE_NLAB, nref))
-    rep.sample({"kind": "merge-trace", "id": traces[0]["id"], "sources": traces[0]["src"], "events": [e["a"] for e in traces[0]["ev"]],
-                "errors": [e["post"]["err"] for e in traces[0]["ev"]]})
+def record_trace(ad, tid, src, attempts):
+    """Run one history on the real code.  attempts: pairs of numbers in [0,1) choosing target / other among the libraries
+    that are still alive (so that a recorded trace can be re-run exactly)."""
+    w = ad.build({"src": src})
+    S = sources()
+    ev = []
+    for x, y in attempts:
+        alive = [i for i, lib in enumerate(w["libs"]) if lib.__dict__]
+        if len(alive) < 2:
+            break
+        ti = alive[int(x * len(alive))]
+        rest = [i for i in alive if i != ti]
+        oi = rest[int(y * len(rest))]
+        a = {"n": "merge", "t": ti, "o": oi}
+        pre_other = G.project_library(w["libs"][oi], S, w["nsrc"], ad.labels)
+        try:
+            err = ad.merge(w, ti, oi)
+            libs = ad.project_libs(w)
+            if err:
+                libs[oi] = pre_other     # `other` is not observed at a refusal (see shape_obs)
+            ev.append({"a": a, "post": {"libs": libs, "err": err}})
+        except Exception as ex:  # noqa: BLE001  an escaping exception ends the history; TLC rejects the event
+            ev.append({"a": a, "post": {"libs": [], "err": "exception %s: %s" % (type(ex).__name__, str(ex)[:160])}})
+            break
+    return {"id": tid, "src": src, "attempts": attempts, "ev": ev}
+
+
+def trace_verdicts(bad):
+    """(key, text, payload) for every rejected trace; keys coincide with the replay keys of the same mechanism."""
+    out = []
     for b in bad:
         ev = b["trace"]["ev"]
         k = b["matched"]
@@ -295,26 +362,44 @@ def run_merge_traces(rep, thorough, seed):
         if "invariant" in b:
             key, why = "trace:merge:invariant:" + b["invariant"], "invariant %s fails on a recorded history" % b["invariant"]
         elif str(post.get("err", "")).startswith("exception"):
-            key, why = "merge:%s:exception:%s" % ("Merge" if not (exp or {}).get("err") else "MergeRefused", post["err"].split()[1].rstrip(":")), post["err"]
+            key = "merge:%s:exception:%s" % ("Merge" if not (exp or {}).get("err") else "MergeRefused", post["err"].split()[1].rstrip(":"))
+            why = post["err"]
         elif exp:
             act = {"n": "MergeRefused" if exp["err"] else "Merge", "t": a.get("t"), "o": a.get("o")}
             eo = shape_obs(exp["libs"], exp["err"], act, expected=True)
             go = shape_obs(post.get("libs", []), post.get("err"), act)
-            d = rp.diff(eo, go) or ".?: recorded state is not the specification's"
-            key = merge_key({"action": act, "first_difference": d, "expected": eo})
-            why = d
+            why = rp.diff(eo, go) or ".?: recorded state is not the specification's"
+            key = merge_key({"action": act, "first_difference": why, "expected": eo})
         else:
             key, why = "trace:merge:unmatched", "no step of the specification matches"
-        rep.violation(key, "recorded merge history %s is not a behaviour of LibraryMerge at event %d (%s): %s" % (
+        out.append((key, "recorded merge history %s is not a behaviour of LibraryMerge at event %d (%s): %s" % (
             b["trace"]["id"], k + 1, json.dumps(a), why[:400]),
-            {"direction": "trace", "part": "merge", "trace": b["trace"], "matched": k, "expected": exp})
+            {"direction": "trace", "part": "merge", "trace": b["trace"], "matched": k, "expected": exp}))
+    return out
+
+
+def run_merge_traces(rep, thorough, seed):
+    ntr = 60 if _SELFTEST else 600 if thorough else 150
+    traces = merge_traces(ntr, 9, seed)
+    bad, stats = tracecheck.validate("LibraryMerge_trace", "LibraryMerge_trace.cfg", MODDIR, traces, timeout=3000)
+    rep.add_tlc("trace-validation:merge", stats["tlc"])
+    nref = sum(1 for t in traces for e in t["ev"] if e["post"]["err"])
+    rep.add_traces("merge-histories", len(traces), sum(len(t["ev"]) for t in traces),
+                   "seeded random scenarios of %d generated source libraries over %d labels, <= 9 random merge attempts each, run on "
+                   "the real code; the projection of every library after every call must be a step of LibraryMerge" % (TRACE_NSRC, TRACE_NLAB))
+    rep.note("merge histories: %d events, %d of them refusals" % (sum(len(t["ev"]) for t in traces), nref))
+    if nref == 0 or nref == sum(len(t["ev"]) for t in traces):
+        raise tlc.MachineryError("vacuous: the recorded histories contain %d refusals out of %d events" % (nref, sum(len(t["ev"]) for t in traces)))
+    rep.sample({"kind": "merge-trace", "id": traces[0]["id"], "sources": traces[0]["src"], "events": [e["a"] for e in traces[0]["ev"]],
+                "errors": [e["post"]["err"] for e in traces[0]["ev"]]})
+    for key, text, payload in trace_verdicts(bad):
+        rep.violation(key, text, payload)
 
 
 # ------------------------------------------------------------------------------------------------------------
 # Macros: one real call per printed case
 # ------------------------------------------------------------------------------------------------------------
-MACRO_LAWS = ("ZeroForEmpty", "AdditiveOverNuclides", "Homogeneous", "AdditiveOverCompositions", "MissingZeroIsHarmless", "DerivedCommute")
-MACRO_RTOL = 1e-9   # a handful of double additions/multiplications of dyadic or near-dyadic numbers
+MACRO_RTOL = 1e-9   # a handful of double additions/multiplications of small rationals
 
 
 def macro_key(case, quantity, exp, got):
@@ -340,8 +425,7 @@ def check_macro_case(world, table, case, empty_dict=False):
     out = []
     for q, e in exp.items():
         if q not in got:
-            o = got.get("creator", "missing")
-            q0 = "creator"
+            o, q0 = got.get("creator", "missing"), "creator"
         else:
             o, q0 = got[q], q
         d = rp.diff(e, o, rtol=MACRO_RTOL)
@@ -349,15 +433,37 @@ def check_macro_case(world, table, case, empty_dict=False):
             out.append((macro_key(case, q0, e, o), "%s for composition %s (suffix %s, table %d%s): expected %s, observed %s" % (
                 q0, json.dumps(case["comp"]), case["sfx"], case["v"], ", empty dict" if empty_dict else "",
                 json.dumps(e)[:200], json.dumps(o)[:300]),
-                {"direction": "replay", "part": "macros", "case": case, "quantity": q0, "empty_dict": empty_dict,
+                {"direction": "replay", "part": "macros", "case": case, "table": table, "quantity": q0, "empty_dict": empty_dict,
                  "expected": e, "observed": o}))
     return out
 
 
-def run_macros(rep, thorough, seed, mc_future):
-    t = "_thorough" if thorough else ""
-    eres = _cached("Macros_mc", "Macros_emit%s.cfg" % t, workers=1, coverage=False)
-    _tlc_verdict(rep, "cases:Macros_emit%s.cfg" % t, eres)
+def check_total_scatter(world, table, v):
+    out = []
+    for i, e in enumerate(table["entries"]):
+        lacking = [k for k, h in zip(table["scatKinds"], e["hasScat"]) if not h]
+        payload = {"direction": "replay", "part": "totalScatter", "table": table, "entry": i}
+        try:
+            got = world.micro_total_scatter(i)
+        except Exception as ex:  # noqa: BLE001  a legal query that raises is an observation
+            out.append(("totalScatter:micro:exception:%s:lacking-%s" % (type(ex).__name__, "n2nScatter" if "n2nScatter" in lacking else "+".join(lacking) or "nothing"),
+                        "XSCollection.getTotalScatterMatrix raised %s: %s on a nuclide without %s" % (type(ex).__name__, ex, lacking), payload))
+            continue
+        d = rp.diff(G.mat(e["totScat"]), got, rtol=MACRO_RTOL)
+        if d:
+            out.append(("totalScatter:micro:value:lacking-%s" % ("+".join(lacking) or "nothing"),
+                        "XSCollection.getTotalScatterMatrix of table %d entry %d: %s" % (v, i, d), payload))
+    return out
+
+
+def run_macros(rep, thorough, seed, results):
+    if "macro_mc" in results and not _SELFTEST:
+        res = results["macro_mc"]
+        _tlc_verdict(rep, "exhaustive:" + res.cfgname, res)
+        if res.coverage.get("Next", (0, 0))[1] == 0:
+            raise tlc.MachineryError("vacuous: Macros explored no case")
+    eres = results["macro_emit"]
+    _tlc_verdict(rep, "cases:" + eres.cfgname, eres)
     tables = {p["table"]: p for p in eres.prints if isinstance(p, dict) and "table" in p}
     cases = [p["case"] for p in eres.prints if isinstance(p, dict) and "case" in p]
     if not tables or not cases:
@@ -365,95 +471,245 @@ def run_macros(rep, thorough, seed, mc_future):
     wd = common.workdir("c10-macro")
     worlds = {v: G.MacroWorld(tb, wd) for v, tb in tables.items()}
     n = nontrivial = 0
-    seen = set()
     for c in cases:
-        runs = [False] + ([True] if c["empty"] else [])     # the empty composition also as an empty dict
-        for empty_dict in runs:
+        for empty_dict in [False] + ([True] if c["empty"] else []):     # the empty composition also as an empty dict
             n += 1
             nontrivial += 0 if (c["empty"] or c["refused"]) else 1
             for key, text, payload in check_macro_case(worlds[c["v"]], tables[c["v"]], c, empty_dict):
-                if key in seen:
-                    rep.violation(key, text, payload)   # counted
-                    continue
-                seen.add(key)
                 rep.violation(key, text, payload)
+    if nontrivial == 0:
+        raise tlc.MachineryError("vacuous: no macro case with a non-empty, accepted composition")
     rep.add_replay("macro-cases", n, nontrivial,
                    "every (table, suffix, composition) TLC enumerates is given to computeMacroscopicGroupConstants (7 reactions, nuSigF, "
                    "total, transport), the neutron/gamma energy-deposition and fission/capture energy-generation functions and to "
                    "MacroscopicCrossSectionCreator on a real HexBlock; non-trivial = neither empty nor refused")
-    # XSCollection.getTotalScatterMatrix on every generated nuclide (matrices the nuclide lacks are skipped)
     m = 0
     for v, w in worlds.items():
-        for i, e in enumerate(tables[v]["entries"]):
-            m += 1
-            lacking = [k for k, h in zip(tables[v]["scatKinds"], e["hasScat"]) if not h]
-            try:
-                got = w.micro_total_scatter(i)
-            except Exception as ex:  # noqa: BLE001  a legal query that raises is an observation
-                rep.violation("totalScatter:micro:exception:%s:lacking-%s" % (type(ex).__name__, "+".join(lacking) or "nothing"),
-                              "XSCollection.getTotalScatterMatrix raised %s: %s on a nuclide without %s" % (type(ex).__name__, ex, lacking),
-                              {"direction": "replay", "part": "totalScatter", "table": v, "entry": i, "hasScat": e["hasScat"]})
-                continue
-            d = rp.diff(G.mat(e["totScat"]), got, rtol=MACRO_RTOL)
-            if d:
-                rep.violation("totalScatter:micro:value:lacking-%s" % ("+".join(lacking) or "nothing"),
-                              "XSCollection.getTotalScatterMatrix of table %d entry %d: %s" % (v, i, d),
-                              {"direction": "replay", "part": "totalScatter", "table": v, "entry": i, "hasScat": e["hasScat"]})
-    rep.add_replay("micro-total-scatter", m, m, "getTotalScatterMatrix on every generated nuclide")
+        m += len(tables[v]["entries"])
+        for key, text, payload in check_total_scatter(w, tables[v], v):
+            rep.violation(key, text, payload)
+    rep.add_replay("micro-total-scatter", m, m, "XSCollection.getTotalScatterMatrix on every generated nuclide against the table's sum")
     ok = [c for c in cases if not c["empty"] and not c["refused"] and c["sfx"] == "AA"]
     if ok:
         c = ok[len(ok) // 2]
         rep.sample({"kind": "macro-case", "table": c["v"], "suffix": c["sfx"], "composition": c["comp"],
                     "expected": {k: c["exp"][k] for k in ("absorption", "removal", "nuSigF")}})
-    # the laws, checked by TLC for every case (started in the background at the beginning of the run)
-    if mc_future is not None:
-        res = mc_future.result()
-        _tlc_verdict(rep, "exhaustive:" + res.cfgname, res)
-        if res.coverage.get("Next", (0, 0))[1] == 0:
-            raise tlc.MachineryError("vacuous: Macros explored no case")
 
 
 def run(rep, tier, seed):
-    import concurrent.futures
-
     thorough = tier == "thorough"
-    tlc.sany("LibraryMerge_mc", MODDIR)
-    tlc.sany("Macros_mc", MODDIR)
+    for m in ("LibraryMerge_mc", "LibraryMerge_trace", "Macros_mc"):
+        tlc.sany(m, MODDIR)
     rep.exhaustive = True
-    with concurrent.futures.ThreadPoolExecutor(max_workers=1) as pool:
-        fut = None
-        if not _SELFTEST:
-            cfg = "Macros_mc%s.cfg" % ("_thorough" if thorough else "")
-
-            def job():
-                r = tlc.run("Macros_mc", cfg, MODDIR, want_prints=False, timeout=3000, workers=8)
-                r.cfgname = cfg
-                return r
-            fut = pool.submit(job)
-        run_merge(rep, thorough, seed)
-        run_merge_traces(rep, thorough, seed)
-        run_macros(rep, thorough, seed, fut)
+    results = launch(thorough)          # all threads have ended before any process is forked
+    run_merge(rep, thorough, seed, results)
+    run_merge_traces(rep, thorough, seed)
+    run_macros(rep, thorough, seed, results)
+    rep.extra["tolerances"] = {"macroscopic arrays": "rtol %g (a handful of double operations on small rationals)" % MACRO_RTOL,
+                               "library content": "exact (ids recognised from byte-exact fingerprints of arrays and metadata)"}
     rep.assume(
         "a source library is what armi's ISOTXS / GAMISO / PMATRX reader returns for a generated file of one kind; libraries are "
         "merged at most once and never into themselves",
         "order of nuclideLabels / fileNames is not content (compared as sets); the free-text libraryLabel is not content",
         "neutron velocity: the first merged library that has one provides it (documented 'just use the first one'); that one is "
         "present iff a neutron library was merged is order-independent",
-        "every generated PMATRX nuclide carries neutron heating data (two data-free entries of the same label would merge silently)",
-        "a refused merge is compared on both libraries, the target first",
+        "every generated PMATRX nuclide carries neutron heating data (two data-free entries of one label would merge silently)",
+        "at a refused merge the target and the bystanders are compared, `other` is not (the statement constrains the target)",
+        "refusals: ImmutablePropertyError (group structures / dose factors), OSError (file metadata), AttributeError or numpy's "
+        "ValueError (same kind of data for one label)",
         "zero for an empty composition = zero vector (not None, not an exception); a nuclide with non-zero density that the library "
         "lacks is refused with ValueError as documented; data a nuclide does not carry contribute nothing",
         "energy-deposition constants are compared in the library's unit (observed J/cm divided by units.JOULES_PER_eV)",
     )
 
 
+# ------------------------------------------------------------------------------------------------------------
 def replay(payload):
-    if payload.get("part") == "merge" and payload.get("direction") == "replay":
+    part, direction = payload.get("part"), payload.get("direction")
+    if part == "merge" and direction == "replay":
         ad = MergeAdapter(nlab=3)
         steps = [{"act": a, "obs": {}} for a in payload["behaviour"]]
         steps[-1]["obs"] = payload["expected"]
         d = rp.run_behaviour(ad, payload["root"], steps, check_from=len(steps) - 1)
         print(json.dumps(d, indent=1, default=str) if d else "no divergence: behaviour conforms")
         return 1 if d else 0
-    print("replay of direction=%s: see payload" % payload.get("direction"))
+    if part == "merge" and direction == "trace":
+        tr = payload["trace"]
+        ad = MergeAdapter(nlab=TRACE_NLAB)
+        again = record_trace(ad, tr["id"], tr["src"], [tuple(x) for x in tr["attempts"]])
+        bad, _ = tracecheck.validate("LibraryMerge_trace", "LibraryMerge_trace.cfg", MODDIR, [again], timeout=600)
+        for key, text, _p in trace_verdicts(bad):
+            print(key, "\n ", text)
+        if not bad:
+            print("no divergence: the re-recorded history is a behaviour of LibraryMerge")
+        return 1 if bad else 0
+    if part == "macros":
+        w = G.MacroWorld(payload["table"], common.workdir("c10-macro"))
+        out = [x for x in check_macro_case(w, payload["table"], payload["case"], payload.get("empty_dict", False))]
+        for key, text, _p in out:
+            print(key, "\n ", text)
+        if not out:
+            print("no divergence: the case conforms")
+        return 1 if out else 0
+    if part == "totalScatter":
+        w = G.MacroWorld(payload["table"], common.workdir("c10-macro"))
+        out = check_total_scatter(w, payload["table"], payload["table"]["table"])
+        for key, text, _p in out:
+            print(key, "\n ", text)
+        if not out:
+            print("no divergence")
+        return 1 if out else 0
+    print("replay of direction=%s: see payload (TLC trace)" % direction)
     return 0
+
+
+def selftest():
+    """In-process mutants of the anchored code; each must be detected by replay, trace validation or the macro cases."""
+    global _SELFTEST
+    from harness.report import Report
+    from harness.selftest import patched, run_mutants
+
+    armi_ready()
+    import numpy as np
+    from armi.nuclearDataIO import nuclearFileMetadata, xsCollections, xsLibraries, xsNuclides
+    from armi.utils import properties
+
+    _SELFTEST = True
+    L = xsLibraries.IsotxsLibrary
+
+    def detect():
+        rep = Report("C10", "quick", 0)
+        run(rep, "quick", 0)
+        return [v["key"] for v in rep.violations]
+
+    # ---- merge mutants ----
+    def merge_nuclides_later_wins(self, other):
+        for key, nuc in other.items():
+            if key in self:
+                del self[key]          # the later library silently replaces the entry
+            self[key] = nuc
+
+    def xscollection_merge_overwrites(self, other):
+        if any(v is not None for k, v in other.__dict__.items() if k not in ("source", "higherOrderScatter")):
+            self.__dict__.update(other.__dict__)
+
+    def merge_attributes_keep_first(this, other, attrName):
+        a = getattr(this, attrName)
+        return a if a is not None else getattr(other, attrName)
+
+    def merge_energies_no_check(self, other):
+        if getattr(self, "_neutronEnergyUpperBounds", None) is None:
+            self.neutronEnergyUpperBounds = other.neutronEnergyUpperBounds
+        if getattr(self, "_neutronVelocity", None) is None:
+            self.neutronVelocity = other.neutronVelocity
+
+    orig_md_merge = nuclearFileMetadata._Metadata.merge
+
+    def metadata_merge_no_compare(self, other, selfContainer, otherContainer, fileType, exceptionClass):
+        try:
+            return orig_md_merge(self, other, selfContainer, otherContainer, fileType, exceptionClass)
+        except exceptionClass:
+            merged = self.__class__()
+            merged.update(other)
+            merged.update(self)
+            return merged
+
+    def file_md_merge_drops_names(self, other, selfContainer, otherContainer, mergedData):
+        mergedData.fileNames = list(self.fileNames)
+        mergedData["libraryLabel"] = self["libraryLabel"] or other["libraryLabel"]
+
+    orig_merge = L.merge
+
+    def merge_keeps_other(self, other):
+        keep = dict(other.__dict__)
+        orig_merge(self, other)
+        other.__dict__ = keep          # the merged-in library is not emptied: its nuclides now live in two libraries
+
+    def merge_props_skip_gamma(self, other):
+        properties.unlockImmutableProperties(other)
+        try:
+            self.neutronDoseConversionFactors = other.neutronDoseConversionFactors
+            self._mergeNeutronEnergies(other)
+            self.gammaDoseConversionFactors = other.gammaDoseConversionFactors
+        finally:
+            properties.lockImmutableProperties(other)
+
+    orig_xsn_merge = xsNuclides.XSNuclide.merge
+
+    def nuclide_merge_scales(self, other):
+        orig_xsn_merge(self, other)
+        if self.gammaXS.nGamma is not None and self.micros.nGamma is not None:
+            self.gammaXS.nGamma = self.gammaXS.nGamma * 1.0000001     # data no longer identical to its source
+
+    # ---- macro mutants ----
+    orig_cmgc = xsCollections.computeMacroscopicGroupConstants
+
+    def cmgc_unsorted_last_twice(constantName, numberDensities, lib, microSuffix, libType=None, multConstant=None, multLib=None):
+        r = orig_cmgc(constantName, numberDensities, lib, microSuffix, libType=libType, multConstant=multConstant, multLib=multLib)
+        if r is not None and constantName == "nalph":
+            r = r * 2.0          # one reaction double counted
+        return r
+
+    def cmgc_missing_silently_skipped(constantName, numberDensities, lib, microSuffix, libType=None, multConstant=None, multLib=None):
+        present = {}
+        for k, v in numberDensities.items():
+            try:
+                lib.getNuclide(k, microSuffix)
+                present[k] = v
+            except KeyError:
+                pass
+        return orig_cmgc(constantName, present, lib, microSuffix, libType=libType, multConstant=multConstant, multLib=multLib)
+
+    def absorption_skips_n2n(self):
+        return [self.nGamma, self.fission, self.nalph, self.np, self.nd, self.nt]
+
+    def removal_keeps_diagonal(self):
+        self.macros.removal = self.macros.absorption - self.macros.n2n
+        self.macros.removal += self.macros.totalScatter.sum(axis=0).getA1()
+
+    def total_scatter_n2n_once(self):
+        ms = [m for m in (self.elasticScatter, self.inelasticScatter, self.n2nScatter) if m is not None]
+        return sum(ms)
+
+    def scatter_ignores_suffix(self, libType="micros"):
+        for nuclide in self.microLibrary.nuclides:
+            mc = getattr(nuclide, libType)
+            nd = self.densities.get(nuclide.name, 0.0)
+            for k in ("elasticScatter", "inelasticScatter", "n2nScatter"):
+                if mc[k] is not None:
+                    self.macros[k] = self.macros[k] + mc[k] * nd
+
+    def xs_multiplier_first_group(libNuclide, multiplier, libType):
+        if multiplier:
+            try:
+                v = getattr(getattr(libNuclide, libType), multiplier)
+            except Exception:
+                v = libNuclide.isotxsMetadata[multiplier]
+            v = np.asarray(v)
+            return v if v.ndim == 0 else np.full(v.shape, v[0])      # nu taken from the first group only
+        return np.asarray(1.0)
+
+    P = patched
+    M = xsCollections.MacroscopicCrossSectionCreator
+    mutants = [
+        ("_mergeNuclides lets the later library win silently", lambda: P(L, "_mergeNuclides", merge_nuclides_later_wins)),
+        ("XSCollection.merge overwrites existing cross sections", lambda: P(xsCollections.XSCollection, "merge", xscollection_merge_overwrites)),
+        ("_mergeAttributes keeps the first production datum silently", lambda: P(xsNuclides, "_mergeAttributes", merge_attributes_keep_first)),
+        ("_mergeNeutronEnergies does not compare group structures", lambda: P(xsLibraries._XSLibrary, "_mergeNeutronEnergies", merge_energies_no_check)),
+        ("_Metadata.merge does not refuse differing file metadata", lambda: P(nuclearFileMetadata._Metadata, "merge", metadata_merge_no_compare)),
+        ("FileMetadata merge drops the other library's file names", lambda: P(nuclearFileMetadata.NuclideXSMetadata, "_mergeLibrarySpecificData", file_md_merge_drops_names)),
+        ("merge does not empty the merged-in library", lambda: P(L, "merge", merge_keeps_other)),
+        ("_mergeProperties forgets the gamma group structure", lambda: P(L, "_mergeProperties", merge_props_skip_gamma)),
+        ("XSNuclide.merge perturbs merged gamma data by 1e-7", lambda: P(xsNuclides.XSNuclide, "merge", nuclide_merge_scales)),
+        ("macro sum double counts one reaction", lambda: P(xsCollections, "computeMacroscopicGroupConstants", cmgc_unsorted_last_twice)),
+        ("nuclides missing from the library are silently skipped", lambda: P(xsCollections, "computeMacroscopicGroupConstants", cmgc_missing_silently_skipped)),
+        ("absorption omits n2n", lambda: P(xsCollections.XSCollection, "getAbsorptionXS", absorption_skips_n2n)),
+        ("removal keeps the in-group scatter", lambda: P(M, "_computeRemovalXS", removal_keeps_diagonal)),
+        ("total scatter counts n2n once", lambda: P(xsCollections.XSCollection, "getTotalScatterMatrix", total_scatter_n2n_once)),
+        ("macro scatter matrices ignore the xs-id suffix", lambda: P(M, "_convertScatterMatrices", scatter_ignores_suffix)),
+        ("multiplier (nu) taken from the first group", lambda: P(xsCollections, "_getXsMultiplier", xs_multiplier_first_group)),
+    ]
+    try:
+        return run_mutants(mutants, detect)
+    finally:
+        _SELFTEST = False
